@@ -228,6 +228,9 @@ func (v *refView) proofPositions(targets []int) []uint64 {
 // (case split), leaf hashes Atom(id) with symbolic pairwise distinct ids.
 func refShape(maxN int) *refForest {
 	n := verifChoose("n", verifParam("minN", 0), maxN)
+	if verifParam("shapeMode", 0) == 1 {
+		return refShapeTrees(n)
+	}
 	f := &refForest{}
 	for i := 0; i < n; i++ {
 		alive := verifChoose("alive", 0, 1) == 1
@@ -236,6 +239,36 @@ func refShape(maxN int) *refForest {
 			verifAssume(h != f.leaves[j].hash)
 		}
 		f.leaves = append(f.leaves, refLeaf{hash: h, alive: alive})
+	}
+	return f
+}
+
+// refShapeTrees (shapeMode=1, for bigger forests): the dead leaves are any subset of whole trees plus at
+// most `deadExtra` further single leaves (ascending).
+func refShapeTrees(n int) *refForest {
+	f := &refForest{}
+	for i := 0; i < n; i++ {
+		h := verifLeafHash("leaf")
+		for j := 0; j < i; j++ {
+			verifAssume(h != f.leaves[j].hash)
+		}
+		f.leaves = append(f.leaves, refLeaf{hash: h, alive: true})
+	}
+	v := f.view()
+	deadTree := make([]bool, len(v.roots))
+	for t := range deadTree {
+		deadTree[t] = verifChoose("deadTree", 0, 1) == 1
+	}
+	var others []int
+	for s := 0; s < n; s++ {
+		if deadTree[v.nodes[v.leafIdx[s]].tree] {
+			f.leaves[s].alive = false
+		} else {
+			others = append(others, s)
+		}
+	}
+	for _, s := range refPickCombo("deadLeaf", others, verifParam("deadExtra", 1)) {
+		f.leaves[s].alive = false
 	}
 	return f
 }
